@@ -39,6 +39,8 @@ type rcCfg struct {
 	Caches  []string `json:"caches"`
 	Ub      string   `json:"ub"`
 	L2      string   `json:"l2"`
+	// Stores "shared": every cache of the configuration persists to one badger directory (one store instance)
+	Stores string `json:"stores"`
 }
 type rcCase struct {
 	Seq       []string `json:"seq"`
@@ -47,6 +49,7 @@ type rcCase struct {
 	Retained  bool     `json:"retained"`
 	Gap       int      `json:"gap"`
 	Late      int      `json:"late"`
+	Persist   bool     `json:"persist"`
 }
 
 func freePort() int {
@@ -61,6 +64,9 @@ func freePort() int {
 // slowUpdates: every update of the configuration takes a few hundred milliseconds (an upstream whose health check is slow)
 var rcSlowUpdates bool
 
+// rcStoreDir the badger directory of the instance whose configuration is being written (live and fresh have their own)
+var rcStoreDir string
+
 func rcYAML(c *rcCfg, ports map[string]int, backA, backB string) []byte {
 	pc := config.PikeConfig{}
 	levels := map[string]map[string]uint{"fast": {"gzip": 1, "br": 1}, "slow": {"gzip": 9, "br": 9}, "gziponly": {"gzip": 9}}
@@ -71,7 +77,11 @@ func rcYAML(c *rcCfg, ports map[string]int, backA, backB string) []byte {
 		pc.Compresses = append(pc.Compresses, config.CompressConfig{Name: "bestCompression", Levels: levels[c.Best]})
 	}
 	for _, n := range c.Caches {
-		pc.Caches = append(pc.Caches, config.CacheConfig{Name: n, Size: 1003, HitForPass: "5m"})
+		cc := config.CacheConfig{Name: n, Size: 1003, HitForPass: "5m"}
+		if c.Stores == "shared" {
+			cc.Store = "badger://" + rcStoreDir
+		}
+		pc.Caches = append(pc.Caches, cc)
 	}
 	pc.Upstreams = []config.UpstreamConfig{
 		{Name: "uA", Servers: []config.UpstreamServerConfig{{Addr: backA}}},
@@ -212,7 +222,7 @@ func rcGet(port int, path string, ae string) (status int, h http.Header, body []
 }
 
 // the probe battery: what a client can observe of one server
-func rcProbes(port int, tag string) (all []string, noBest []string) {
+func rcProbes(port int, tag string, persist bool) (all []string, noBest []string) {
 	add := func(s string, best bool) {
 		all = append(all, s)
 		if !best {
@@ -257,6 +267,22 @@ func rcProbes(port int, tag string) (all []string, noBest []string) {
 	}
 	add(fmt.Sprintf("%s cached first=%s second=%s ce=%s", tag, h1.Get("X-Status"), h2.Get("X-Status"), h2.Get("Content-Encoding")), false)
 	add(fmt.Sprintf("%s cached storedlen=%d", tag, len(b2)), true)
+	if persist {
+		// the cache of this server has a store: an entry pushed out of memory by 2 500 other keys comes back from the store
+		pk := "/a/size/2000?persist=" + tag
+		_, p1, _, _ := rcGet(port, pk, "gzip")
+		for i := 0; i < 2500; i++ {
+			_, _, _, _ = rcGet(port, fmt.Sprintf("/a/size/70?fill=%s%d", tag, i), "")
+		}
+		_, p2, _, _ := rcGet(port, pk, "gzip")
+		if p1 == nil {
+			p1 = http.Header{}
+		}
+		if p2 == nil {
+			p2 = http.Header{}
+		}
+		add(fmt.Sprintf("%s persisted first=%s after-eviction=%s", tag, p1.Get("X-Status"), p2.Get("X-Status")), false)
+	}
 	return
 }
 
@@ -326,6 +352,8 @@ func Reconfig(w *world.World, raws []json.RawMessage) ([]interface{}, error) {
 		freshPorts := map[string]int{"A": freePort(), "B": freePort(), "C": freePort()}
 		liveFile := filepath.Join(dir, fmt.Sprintf("live%d.yml", ci))
 		freshFile := filepath.Join(dir, fmt.Sprintf("fresh%d.yml", ci))
+		liveStore, freshStore := filepath.Join(dir, fmt.Sprintf("livestore%d", ci)), filepath.Join(dir, fmt.Sprintf("freshstore%d", ci))
+		rcStoreDir = liveStore
 		if err := rcWrite(liveFile, rcYAML(&c.Configs[0], livePorts, backA, backB), true); err != nil {
 			return nil, err
 		}
@@ -432,10 +460,11 @@ func Reconfig(w *world.World, raws []json.RawMessage) ([]interface{}, error) {
 			}
 			_, rh, _, _ := rcGet(livePorts["A"], retainKey, "gzip")
 			o["retainedHit"] = rh != nil && rh.Get("X-Status") == "hit"
-			liveAll, liveNoBest := rcProbes(livePorts["A"], "A")
+			persist := c.Persist
+			liveAll, liveNoBest := rcProbes(livePorts["A"], "A", persist)
 			for _, x := range []string{"B", "C"} {
 				if finalHas[x] {
-					a, b := rcProbes(livePorts[x], x)
+					a, b := rcProbes(livePorts[x], x, persist)
 					liveAll, liveNoBest = append(liveAll, a...), append(liveNoBest, b...)
 				}
 			}
@@ -449,6 +478,7 @@ func Reconfig(w *world.World, raws []json.RawMessage) ([]interface{}, error) {
 			}
 			o["live"], o["liveNoBest"] = liveAll, liveNoBest
 			// the fresh instance
+			rcStoreDir = freshStore
 			if err := rcWrite(freshFile, rcYAML(final, freshPorts, backA, backB), true); err != nil {
 				o["infra"] = err.Error()
 				return
@@ -463,11 +493,11 @@ func Reconfig(w *world.World, raws []json.RawMessage) ([]interface{}, error) {
 				o["infra"] = "fresh instance did not start"
 				return
 			}
-			freshAll, freshNoBest := rcProbes(freshPorts["A"], "A")
+			freshAll, freshNoBest := rcProbes(freshPorts["A"], "A", persist)
 			for _, x := range []string{"B", "C"} {
 				if finalHas[x] {
 					waitPort(freshPorts[x], true, 5*time.Second)
-					a, b := rcProbes(freshPorts[x], x)
+					a, b := rcProbes(freshPorts[x], x, persist)
 					freshAll, freshNoBest = append(freshAll, a...), append(freshNoBest, b...)
 				}
 			}
